@@ -38,7 +38,7 @@ Import String.
    docstrings, comments and layout).  A different digest means that the model is no longer known to describe the
    code; the check then reports the broken tie and looks for a failing input. *)
 Theorem c16_models_describe_the_current_source :
-  (pin_call_lua_sandbox, pin_start_page) = ("c45edfa1a1747165", "8dfb9666f50592b8")%string.
+  (pin_call_lua_sandbox, pin_start_page) = ("a2f9cd781dc56d8f", "8dfb9666f50592b8")%string.
 Proof. reflexivity. Qed.
 Print Assumptions c16_models_describe_the_current_source.
 End Pins.
